@@ -79,6 +79,16 @@ def mini_ast(expr):
                 and not v.keywords and isinstance(v.args[0], ast.Constant) and isinstance(v.args[0].value, str)):
             out.append(['re', v.args[0].value])
             continue
+        if (isinstance(v, ast.Compare) and len(v.ops) == 1 and isinstance(v.ops[0], ast.Lt)
+                and isinstance(v.comparators[0], ast.Constant) and v.comparators[0].value == 0.01
+                and type(v.comparators[0].value) is float
+                and isinstance(v.left, ast.Call) and isinstance(v.left.func, ast.Name) and v.left.func.id == 'abs'
+                and len(v.left.args) == 1 and not v.left.keywords and isinstance(v.left.args[0], ast.BinOp)
+                and isinstance(v.left.args[0].op, ast.Sub) and isinstance(v.left.args[0].left, ast.Name)
+                and v.left.args[0].left.id == 'amount' and isinstance(v.left.args[0].right, ast.Constant)
+                and type(v.left.args[0].right.value) in (int, float)):
+            out.append(['near', repr(float(v.left.args[0].right.value))])      # abs(amount - v) < 0.01
+            continue
         if (isinstance(v, ast.Compare) and len(v.ops) == 1 and isinstance(v.left, ast.Name)
                 and type(v.ops[0]) in ops and isinstance(v.comparators[0], ast.Constant)):
             name, op, k = v.left.id, ops[type(v.ops[0])], v.comparators[0].value
